@@ -15,10 +15,13 @@ shows the condition cannot be dropped — the default range qualifies) and every
 with omitted slice steps written out at every nesting level (`normSegs`), and printing
 that again gives the identical text.  With `C04` the printed text is a valid RFC 9535
 query; `C12_same_nodes`: writing out the step selects the same nodes, in the same order, on every
-JSON value.  One hypothesis stands for CPython behaviour that is modelled, not proved:
-`FloatRoundTrips` for the float literals of `q` (`repr(float)` then `float()` gives the
-same double; tested by the check on every literal it generates; infinities — literals
-like `1e400`, outside the property's exactly-representable range — do not round-trip).
+JSON value.  The theorem `C12` below carries the hypothesis `FloatRoundTrips` for the float
+literals of `q` (the text printed for a float literal is a complete RFC 9535 number that reads
+back as the same float).  That hypothesis is DISCHARGED in `Props/C12Float.lean`
+(`C12_unconditional`: no float hypothesis left) for the models `Py.reprFloat` / `Py.floatOfText`
+of CPython's `repr(float)` / `float(str)` — after the attempt to prove it had REFUTED it
+(`repr(1e16) = "1e+16"` reads back as an integer literal; `inf` is no number at all), a genuine
+defect of the code (D34) repaired upstream: `Impl.strFloat` is the repaired printing.
 `C12_partial` (structural fragment against `Spec.Grammar` directly), `C12_filter_partial`,
 `C12_fixpoint`, `C12_quoting` are the earlier, narrower results and are kept.
 -/
